@@ -1221,6 +1221,26 @@ def canon17(reply):
     return reply
 
 
+def _load_attempt(xml, flag):
+    """load one document with the given mode: 'loaded' | 'odxerror' | 'foreign:<Type>'"""
+    import warnings
+    import xml.etree.ElementTree as ET
+    from odxtools.database import Database
+    from odxtools.exceptions import OdxError
+    set_flag(flag)
+    try:
+        with warnings.catch_warnings():
+            warnings.simplefilter("ignore")
+            db = Database()
+            db._process_xml_tree(ET.fromstring(xml))
+            db.refresh()
+        return "loaded"
+    except OdxError:
+        return "odxerror"
+    except Exception as e:  # noqa
+        return "foreign:" + type(e).__name__
+
+
 def ill_formed_documents(ctx, big):
     """load-time problems: documents in which ONE numeric text node / attribute is not a number ("zz"), an empty string or a float where an
     integer is expected. Where strict mode reports an OdxError, non-strict mode must DOWNGRADE the problem — load, or still report an
@@ -1239,19 +1259,7 @@ def ill_formed_documents(ctx, big):
     rng = random.Random("C17/ill-formed-documents/v2")
     seen = set()
 
-    def attempt(xml, flag):
-        set_flag(flag)
-        try:
-            with warnings.catch_warnings():
-                warnings.simplefilter("ignore")
-                db = Database()
-                db._process_xml_tree(ET.fromstring(xml))
-                db.refresh()
-            return "loaded"
-        except OdxError:
-            return "odxerror"
-        except Exception as e:  # noqa
-            return "foreign:" + type(e).__name__
+    attempt = _load_attempt
 
     keep = get_flag()
     try:
@@ -1296,7 +1304,7 @@ def ill_formed_documents(ctx, big):
                             ctx.count(f"violations_duplicate[{clause}]")
                             continue
                         seen.add(key)
-                        ctx.violate(clause, ["ill-formed-document", tag], obs, {"xml": broken[max(0, m.start() - 300):m.end() + 100], "tag": tag, "bad": bad}, what)
+                        ctx.violate(clause, ["ill-formed-document", tag], obs, {"xml": broken[max(0, m.start() - 300):m.end() + 100], "tag": tag, "bad": bad, "document": broken}, what)
     finally:
         set_flag(keep)
 
@@ -1489,6 +1497,13 @@ def run(ctx):
 
 def replay(ctx, data):
     w = data["witness"]
+    if "document" in w and "case" not in w:      # family ill-formed-document: the whole document is the witness
+        keep = get_flag()
+        try:
+            s1, l, s2 = _load_attempt(w["document"], True), _load_attempt(w["document"], False), _load_attempt(w["document"], True)
+        finally:
+            set_flag(keep)
+        return not (s1 == "odxerror" and l.startswith("foreign")) and s2 == s1
     c = w["case"]
     keep = get_flag()
     try:
